@@ -7,6 +7,7 @@ package exec
 
 import (
 	"fmt"
+	"os"
 	"go/types"
 
 	"gosym/smt"
@@ -22,6 +23,18 @@ func init() {
 	}
 	summaries[common+"SHA512_256i_TAGGED"] = func(fr *frame, a []value) value {
 		return fr.i.p.hashInts(fr, "Ht", a[0], true, a[1].([]value), true)
+	}
+	// NonEmptyBytes on x.Bytes() of a symbolic honest value: the encoding is empty only
+	// if the value is 0 — a coin event excluded (and counted) here. Hostile fields are
+	// concrete-length byte slices and run the real code.
+	summaries[common+"NonEmptyBytes"] = func(fr *frame, a []value) value {
+		ab, ok := a[0].(*absBytes)
+		if !ok {
+			return declined{}
+		}
+		p := fr.i.p
+		p.assume("honest-field-encoding-nonempty", p.ctx.Not(p.ctx.Eq(ab.t, p.ctx.IntC64(0))))
+		return true
 	}
 	summaries[common+"SHA512_256iOne"] = func(fr *frame, a []value) value {
 		if a[0].(*value) == nil {
@@ -114,10 +127,24 @@ func (p *pathRun) hashInts(fr *frame, fam string, tag value, hasTag bool, ins []
 		return declined{}
 	}
 	out := c.App(name, smt.Int, args...)
+	if os.Getenv("GOSYM_TRACE_HASH") != "" {
+		s := name + "("
+		for _, a := range args {
+			as := a.String()
+			if len(as) > 60 {
+				as = as[:60] + fmt.Sprintf("..#%d", a.ID)
+			}
+			s += as + ", "
+		}
+		p.note("hash %s) -> #%d", s, out.ID)
+	}
 	key := fmt.Sprintf("hi:%d", out.ID)
 	if p.counters[key] == 0 {
 		p.counters[key] = 1
 		p.axiom("hash-output-range", c.And(c.Ge(out, c.IntC64(0)), c.Lt(out, c.IntC(pow2(256)))))
+		// coin excluded: a SHA-512/256 output equal to 0 (probability 2^-256)
+		p.res.Assumes["hash-output-nonzero"]++
+		p.addPC(c.Gt(out, c.IntC64(0)))
 	}
 	p.markNonNeg(out)
 	p.hashIntApps = append(p.hashIntApps, hashIntApp{name, args, out})
